@@ -118,8 +118,13 @@ func (w *c18World) invariant() (string, string) {
 }
 
 func (w *c18World) create(sender chain.Account, target, contents string, private []byte) (string, string) {
+	return w.createAs(sender, sender.Bech, target, contents, private)
+}
+
+// createAs sends with the creator's address spelled as given (all upper-case bech32 is a valid spelling of the same account).
+func (w *c18World) createAs(sender chain.Account, spelled, target, contents string, private []byte) (string, string) {
 	to, resolvable := w.resolve(target)
-	res := w.f.Exec(&notiftypes.MsgCreateNotification{Creator: sender.Bech, To: target, Contents: contents, PrivateContents: private})
+	res := w.f.Exec(&notiftypes.MsgCreateNotification{Creator: spelled, To: target, Contents: contents, PrivateContents: private})
 	w.logf("create by %s to %q contents=%q -> %s", short(sender.Bech), shortTarget(target), contents, res)
 	if res.OK() {
 		if !resolvable {
@@ -197,6 +202,15 @@ func TestC18(t *testing.T) {
 		sig, msg := w.invariant()
 		rec.Regress("C18/phantom-entry/block-entry-listed-as-notification", sig != "", msg+" | "+strings.Join(w.trace, " ; "))
 	}
+	{ // plain regression replay: a blocked sender spells its address in upper case
+		w := newC18World(c)
+		w.block(w.accs[0], []string{w.accs[1].Bech})
+		sig, msg := w.createAs(w.accs[1], strings.ToUpper(w.accs[1].Bech), w.accs[0].Bech, "{}", nil)
+		if sig == "" {
+			sig, msg = w.invariant()
+		}
+		rec.Regress("C18/blocked-sender-delivered/upper-case-spelling", sig != "", msg+" | "+strings.Join(w.trace, " ; "))
+	}
 	if os_only_regress() {
 		return
 	}
@@ -229,6 +243,10 @@ func TestC18(t *testing.T) {
 					priv = []byte{1, 2, 3}
 				}
 				fail(w.create(drawAcc(rt, "sender"), drawTarget(rt), contents, priv))
+			},
+			"createOtherSpelling": func(rt *rapid.T) {
+				a := drawAcc(rt, "sender")
+				fail(w.createAs(a, strings.ToUpper(a.Bech), drawAcc(rt, "to").Bech, `{"u":1}`, nil))
 			},
 			"create2": func(rt *rapid.T) {
 				fail(w.create(drawAcc(rt, "sender"), drawAcc(rt, "to").Bech, `{"n":`+fmt.Sprint(len(w.trace))+`}`, nil))
